@@ -181,7 +181,7 @@ pub fn cases(max_cmds: usize) -> impl Strategy<Value = Case> {
             r.b = (r.b % 7) * 4000; // a handful of distinct code addresses
             r
         }),
-        6..24,
+        10..36,
     );
     // aliasing histories: breakpoints exactly 64 / 128 / 256 words apart (main code and a subroutine
     // behind the data often are), one of them removed again, then the program resumed until it ends
@@ -195,7 +195,7 @@ pub fn cases(max_cmds: usize) -> impl Strategy<Value = Case> {
         v
     });
     let spec = crate::pick![5 => proggen::with_spin(proggen::prog_spec(24)).boxed(), 1 => proggen::raw_image_spec(super::c03::image_words()).boxed()];
-    (spec, crate::pick![6 => mixed, 4 => steppy, 2 => churn, 1 => aliasing], input_bytes()).prop_map(|(spec, cmds, input)| Case { spec, cmds, input })
+    (spec, crate::pick![6 => mixed, 4 => steppy, 4 => churn, 1 => aliasing], input_bytes()).prop_map(|(spec, cmds, input)| Case { spec, cmds, input })
 }
 
 impl Prop for C10 {
